@@ -375,6 +375,8 @@ PALETTE = [
     ('u16<@>', lambda n: [Member('n_' + n, 'u8'), Member(n, 'u16', EXT, sizer='n_' + n)]),
     ('u32<@64>', lambda n: [Member('n_' + n, 'u64'), Member(n, 'u32', EXT, sizer='n_' + n)]),      # 64-bit counter
     ('Fx2<@i16>', lambda n: [Member('n_' + n, 'i16'), Member(n, 'Fx2', EXT, sizer='n_' + n)]),     # signed counter
+    ('En[2]', lambda n: [Member(n, 'En', FIXED, 2)]),                                               # arrays of enums
+    ('En<>', lambda n: [Member(n, 'En', DYNAMIC)]),
     ('Un12', lambda n: [Member(n, 'Un12')]),
     ('TDy4<>', lambda n: [Member(n, 'TDy4', DYNAMIC)]),
     ('TFx2*', lambda n: [Member(n, 'TFx2', OPTIONAL)]),
@@ -388,6 +390,7 @@ GREEDY_TAILS = [
     ('Fx2<...>', lambda n: [Member(n, 'Fx2', GREEDY)]),
     ('bytes<...>', lambda n: [Member(n, 'byte', GREEDY)]),
     ('Dy4<...>', lambda n: [Member(n, 'Dy4', GREEDY)]),
+    ('En<...>', lambda n: [Member(n, 'En', GREEDY)]),
     ('Gr1', lambda n: [Member(n, 'Gr1')]),          # nested unlimited struct as the last member
     ('Gr4', lambda n: [Member(n, 'Gr4')]),
 ]
@@ -673,7 +676,8 @@ def to_isar(schema, order=None, messages=()):
     return xml, ('\n'.join(patch) + '\n') if patch else None
 
 
-def to_isar_variants(schema, rng):
+def to_isar_variants(schema, rng, split=None):
+    # split: a dict that receives {'inc.xml': text} when the rendering is cut into an included and an including file
     """isar XML + patch using, per member/struct, a randomly chosen one of the documented ways to say the same thing
     (dimension forms, message vs struct, negative enumerators, and every patch action).
     -> (xml, patch text or None, forms used)"""
@@ -686,8 +690,15 @@ def to_isar_variants(schema, rng):
             mem = []
             for n, v, t in d.members:
                 if not t and v >= 0x80000000 and rng.random() < 0.7:
-                    forms.add('negative-enumerator')
-                    mem.append('\n    <enum-member name="%s" value="%d"/>' % (n, v - (1 << 32)))
+                    # isar spells 32-bit values with the top bit set as negative numbers, in any integer notation
+                    neg = v - (1 << 32)
+                    style = rng.choice(['dec', 'hex', 'oct', 'bin'])
+                    forms.add('negative-enumerator' + ('' if style == 'dec' else '-' + style))
+                    txt = {'dec': '%d' % neg, 'hex': '-0x%X' % -neg, 'oct': '-0o%o' % -neg, 'bin': '-0b' + bin(-neg)[2:]}[style]
+                    mem.append('\n    <enum-member name="%s" value="%s"/>' % (n, txt))
+                elif not t and rng.random() < 0.3:
+                    forms.add('enumerator-notation')
+                    mem.append('\n    <enum-member name="%s" value="%s"/>' % (n, rng.choice(['0x%X', '0o%o', '%d']) % v))
                 else:
                     mem.append('\n    <enum-member name="%s" value="%s"/>' % (n, _xml_escape(t if t else v)))
             body.append('<enum name="%s">%s\n</enum>' % (d.name, ''.join(mem)))
@@ -851,5 +862,13 @@ def to_isar_variants(schema, rng):
             patch.append(groups[k].pop(0))
             if not groups[k]:
                 keys.remove(k)
-    xml = '<?xml version="1.0" encoding="utf-8"?>\n<x>\n%s\n</x>\n' % '\n'.join(body)
+    if split is not None and len(body) >= 2:
+        # the first k definitions go to inc.xml, which the main file pulls in through xi:include
+        k = rng.randint(1, len(body) - 1)
+        forms.add('xi-include')
+        split['inc.xml'] = '<?xml version="1.0" encoding="utf-8"?>\n<x>\n%s\n</x>\n' % '\n'.join(body[:k])
+        xml = ('<?xml version="1.0" encoding="utf-8"?>\n<x xmlns:xi="http://www.w3.org/2001/XInclude">\n'
+               '<xi:include href="inc.xml"/>\n%s\n</x>\n' % '\n'.join(body[k:]))
+    else:
+        xml = '<?xml version="1.0" encoding="utf-8"?>\n<x>\n%s\n</x>\n' % '\n'.join(body)
     return xml, ('\n'.join(patch) + '\n') if patch else None, forms
